@@ -99,7 +99,8 @@ fn chacha(seed: u64, tag: &[u8; 4]) -> rand_chacha::ChaCha20Rng {
 
 /// (receiver tape, sender tape).
 /// tweak 0: random; 1: beta all-0; 2: beta all-1; 3: ext: all-zero tapes (eta0 = 0) / ot: first scalar draw of every
-/// party >= q (rejection sampling retries); 4: ext: all-FF tapes; 5: ext: all-zero sender tape only (eta0 = 0, beta random)
+/// party >= q (rejection sampling retries); 4: ext: all-FF tapes; 5: eta0 = 0, beta random (ext: all-zero sender tape; ot: the
+/// sender tape is zero after the two base-OT senders' draws)
 /// 6: beta with whole 64-bit words zero (each with probability 1/2); 7: beta one-hot; 8: beta with 3 of 4 bytes zero
 fn structured_beta(beta: &mut [u8], seed: u64, tweak: u32) {
     let mut rng = chacha(seed ^ 0x6265_7461, b"c01b");
@@ -136,6 +137,7 @@ fn tapes(v: Variant, seed: u64, tweak: u32) -> (Vec<u8>, Vec<u8>) {
                 2 => { for h in 0..2 { r[h * EOT_RTAPE..h * EOT_RTAPE + 128].iter_mut().for_each(|b| *b = 0xff); } }
                 3 => { r[128..160].iter_mut().for_each(|b| *b = 0xff); s[..32].iter_mut().for_each(|b| *b = 0xff); }
                 6..=8 => { for h in 0..2 { structured_beta(&mut r[h * EOT_RTAPE..h * EOT_RTAPE + 128], seed + h as u64, tweak); } }
+                5 => s[2 * 512 * 32..].iter_mut().for_each(|b| *b = 0),      // the eta0 draws (after the two base-OT senders' draws) are zero
                 _ => {}
             }
             (r, s)
@@ -840,6 +842,28 @@ fn run_c01(o: &Opts, cx: &mut Ctx) {
                 }
             }
         } }
+    }
+    // ---- honest exchanges in which a VALUE ON THE WIRE is the scalar 0: eta = 0 (a = (0, 0) and eta0 = 0), and a masked value
+    //      a_tilde[j][i] = (t0 - t1)[j][i] + a_i = 0 for the sender input a_i = -(t0 - t1)[j][i].  Zero is an ordinary field
+    //      element: the receiver must accept and the shares must satisfy the relation.
+    for v in [Variant::Ext, Variant::Ot] {
+        let prov = if v == Variant::Ot { "na" } else { "syn" };
+        let key = key_of(v, prov, gen_sid(&mut rng, 40), &[Scalar::ZERO, Scalar::ZERO], rng.next_u64() >> 1, 5);
+        cx.cache.clear();
+        cx.rep.hist("zero-on-the-wire:eta");
+        scenario(cx, &format!("{} honest", key.line()));
+        let a0 = [special_scalar(&mut rng, 3), special_scalar(&mut rng, 3)];
+        let (sid, seed) = (gen_sid(&mut rng, 41), rng.next_u64() >> 1);
+        cx.cache.clear();
+        let Some(b0) = cx.base(&key_of(v, prov, sid, &a0, seed, 0)) else { continue };
+        for (j, i) in [(rng.gen_range(0..XI), 0usize), (XI - 1, 1)] {
+            let o = v.core_off() + j * ROW + i * KAPPA_BYTES;
+            let Some(x) = sc_from_hex(&hex::encode(&b0.msg2[o..o + KAPPA_BYTES])) else { continue };
+            let mut a = a0; a[i] = a0[i] - x;
+            cx.cache.clear();
+            cx.rep.hist("zero-on-the-wire:a_tilde entry");
+            scenario(cx, &format!("{} honest", key_of(v, prov, sid, &a, seed, 0).line()));
+        }
     }
     // consecutive sessions on ONE thread whose ids are related (shared prefixes of 8/9/16/31 bytes, ids differing in one
     // late byte, the same id again, all-zero then one-hot): the functions are specified as pure in (session id, inputs,
